@@ -107,6 +107,7 @@ func newStabWorld() (*stabWorld, error) {
 		}
 	}
 	w.extra = []string{"x0", "x1"}
+	trackRepo(root)
 	w.nodes = []*snode{{uuid: root, locked: true}}
 	n1, err := drive.NewVersion(root)
 	if err != nil {
@@ -126,7 +127,7 @@ func newStabWorld() (*stabWorld, error) {
 			return nil, err
 		}
 	}
-	drive.Settle(root)
+	settle()
 	return w, nil
 }
 
@@ -147,12 +148,12 @@ func (w *stabWorld) commit(i int) error {
 	if n.locked {
 		return nil
 	}
-	drive.Settle(w.root)
+	settle()
 	if err := drive.Commit(n.uuid); err != nil {
 		return fmt.Errorf("harness: commit: %v", err)
 	}
 	n.locked = true
-	drive.Settle(w.root)
+	settle()
 	snap, err := observeOnly(w.root, n.uuid, w.reads, w.prot)
 	if err != nil {
 		return err
@@ -275,12 +276,11 @@ func (w *stabWorld) deleteInstance(name string) error {
 	// deletion is asynchronous: the instance leaves the repo when its keys are purged
 	for i := 0; ; i++ {
 		gone := true
-		for _, n := range drive.InstanceNames(w.root) {
-			if string(n) == name {
-				gone = false
-			}
+		if instanceExists(w.root, name) {
+			gone = false
 		}
 		if gone {
+			untrackInstance(name)
 			return nil
 		}
 		if i > 120000 {
@@ -347,6 +347,7 @@ func (w *stabWorld) apply(o stabOp, vIdx int) error {
 			return fmt.Errorf("harness: %v", err)
 		}
 		w.extra = append(w.extra, name)
+		trackInstance(name)
 		w.cls["applied/new-instance"]++
 		return nil
 	case "delinst":
@@ -387,7 +388,7 @@ func (w *stabWorld) apply(o stabOp, vIdx int) error {
 
 // verify compares every committed node with the snapshot taken at its commit.
 func (w *stabWorld) verify(after string) error {
-	return drive.WithDeepRetry(w.root, func() error {
+	return withDeepRetry(func() error {
 		for i, n := range w.nodes {
 			if n.snap == nil {
 				continue
@@ -453,7 +454,7 @@ func runStability(c stabCase) (map[string]int, error) {
 		if err := w.apply(o, 1); err != nil {
 			return w.cls, err
 		}
-		drive.Settle(w.root)
+		settle()
 		if err := w.verify(fmt.Sprintf("%s (post op %d)", o.Kind, i)); err != nil {
 			return w.cls, err
 		}
